@@ -219,7 +219,8 @@ def run (inp obs : List String) : Verdict :=
       else
       match init, parseObs first with
       | some st0, some (_, o0) =>
-        let acc0 : Acc := { st := st0, prev := o0, agree := stateMatches st0 o0, spec := specState lower o0,
+        let acc0 : Acc := { st := st0, prev := o0, agree := stateMatches st0 o0,
+                            spec := (specState lower o0).map (fun r => if initTok = "new" then r else r ++ ":at-load"),
                             firstBad := if stateMatches st0 o0 then "" else "init-state" }
         if opToks.length ≠ restObs.length then { agree := false, model := "length-mismatch" } else
         let acc := (opToks.zip restObs).foldl (fun a e => stepAll lower a e.1 e.2) acc0
